@@ -108,6 +108,12 @@ def program_plugins(prog, log):
                 super().__init__(*a, **kw)
                 self.nhcr = 0
 
+            def resolve_dns(self, host, port):
+                log.append({'p': p, 'h': 'dns', 'seen': []})
+                if beh.get('dns') == 'ip':
+                    return '10.9.0.%d' % p, None
+                return None, None
+
             def before_upstream_connection(self, request):
                 log.append({'p': p, 'h': 'buc', 'seen': seen_tags(request)})
                 b = beh['buc']
